@@ -300,6 +300,85 @@ def alphabet(tier, full):
     return [("n", dv, dt, True) for dv in DV for dt in (0.0, 128.0, 128.1)]
 
 
+def busy_consumer(res, blockwise, n_parked, ending):
+    """The application consumes through `async for` and is busy in the loop body while things arrive: one notification it is
+    working on, n_parked fresher ones that arrive meanwhile (only the freshest has to survive), then the end of the observation
+    (a transport error / a 4.04 / a 2.05 without Observe).  When the application comes back it gets the freshest notification
+    first and the end after it."""
+    w = World()
+    try:
+        cli = w.add_context("cli", *CLI)
+        srv = w.add_peer(Notifier("srv", *SRV))
+        m = Message(code=GET, uri_path=["obs"], observe=0)
+        m.remote = cli.remote(SRV)
+        req = cli.ctx.request(m, handle_blockwise=blockwise)
+        its, itend = [], []
+        gate = asyncio.Event()
+
+        async def consume():
+            try:
+                async for r in req.observation:
+                    its.append(bytes(r.payload))
+                    if len(its) == 1:
+                        await gate.wait()        # busy with the first one
+                itend.append("end")
+            except Exception as e:
+                itend.append(e)
+        w.loop.create_task(consume())
+        w.loop.settle()
+
+        def pump():
+            while w.pool:
+                w.deliver(w.pool[0])
+        pump()
+        case = {"busy_consumer": [blockwise, n_parked, ending]}
+        res.evaluations += 1
+        res.traces += 1
+        srv.first_response(5, b"first")
+        pump()
+        v = 5
+        sent = []
+        for k in range(1 + n_parked):
+            v += 1
+            pl = b"n%d" % (k + 1)
+            srv.notify(v, pl, con=False)
+            sent.append(pl)
+            pump()
+        want_last = sent[-1]
+        if ending == "icmp":
+            cli.receive_error(SRV, errno.ECONNREFUSED)
+        elif ending == "404":
+            srv.notify(None, b"gone", con=False, code=132)
+            want_last = b"gone"          # the response that ends the observation is itself handed over, as the last item
+        else:
+            srv.notify(None, b"final", con=False, code=69)
+            want_last = b"final"
+        pump()
+        w.loop.settle()
+        gate.set()
+        w.loop.settle()
+        ok_stream = its[:1] == sent[:1] and its[-1:] == [want_last] and all(x in sent + [b"final", b"gone"] for x in its) and its == sorted(its, key=lambda x: (sent + [b"final", b"gone"]).index(x))
+        if ending == "icmp":
+            ok_end = len(itend) == 1 and isinstance(itend[0], error.Error)
+        else:
+            ok_end = len(itend) == 1 and (itend[0] == "end" or isinstance(itend[0], error.Error))
+        if not ok_stream:
+            res.violate(Violation("delivered-stream", {"first": sent[:1], "last": want_last}, its, "protocol.py:ClientObservation._Iterator", case, trace=w.trace[-20:],
+                                  key="busy:%s" % ending))
+        if not ok_end:
+            res.violate(Violation("termination-signal", "the iteration ends (with a library error for a transport error)", [repr(x) for x in itend],
+                                  "protocol.py:ClientObservation._Iterator", case, key="busy-end:%s" % ending))
+        for msg, e in w.loop_exceptions():
+            res.violate(Violation("loop-exception", "none", core.exc_desc(e) if e else msg, core.site_of(e) if e else "loop", case,
+                                  key=type(e).__name__ if e else msg[:40]))
+        res.signatures.add(core.digest(("busy", blockwise, n_parked, ending)))
+        res.states.add(core.digest(("busy", blockwise, n_parked, ending, its)))
+        res.outcomes.add(core.digest(("busy", len(its))))
+        res.transitions += 2 + n_parked
+    finally:
+        w.dispose()
+
+
 def job(arg):
     kind, first, tier = arg
     res = Result()
@@ -355,6 +434,9 @@ def job(arg):
                 for a in small + [("n", 0, 0.0, True)]:
                     for b in small[:3] + [("dup",), ("dup", 128.1), ("fin", 69, True)]:
                         run_sequence(res, bw, 5, (a, b, small[0]), tuning=tn)
+            for n_parked in (0, 1, 2, 3):
+                for ending in ("icmp", "404", "205"):
+                    busy_consumer(res, bw, n_parked, ending)
             # transport error before the first response
             run_sequence(res, bw, 5, (("icmp0",),))
             run_sequence(res, bw, 5, (("icmp0",), small[0]))
@@ -383,6 +465,9 @@ def run(tier, seed, jobs):
 
 def replay(case, scenario, seed):
     res = Result()
+    if "busy_consumer" in case:
+        busy_consumer(res, *case["busy_consumer"])
+        return [v for v, n in res.violations.values()]
     items = tuple(tuple(i) for i in case["items"])
     run_sequence(res, case["blockwise"], case["v0"], items, first_delay=case.get("first_delay", 0.0), tuning=case.get("tuning"))
     return [v for v, n in res.violations.values()]
